@@ -1,15 +1,18 @@
 // C31 — macro expansion is hygienic except where explicitly unhygienic.
 //
 // Bounded-exhaustive: every macro whose quoted body has ≤ 2 (thorough: ≤ 3) statements from
-//   { n := K, n = n + 100, println(n), println(!{x}) } over the names {a, b}, each reference either hygienic or wrapped
-//   in `unhygienic`, × caller scopes defining none / a / b / both before the call and reading them after it × the caller
-//   argument {a, a + b, 7} × call site {top-level block, method body} × a probe reading a macro-introduced name after the
-//   call. Every program is run on its own (fresh VM, unique macro name).
+//
+//	{ n := K, n = n + 100, println(n), println(!{x}) } over the names {a, b}, each reference either hygienic or wrapped
+//	in `unhygienic`, × caller scopes defining none / a / b / both before the call and reading them after it × the caller
+//	argument {a, a + b, 7} × call site {top-level block, method body} × a probe reading a macro-introduced name after the
+//	call. Every program is run on its own (fresh VM, unique macro name).
+//
 // Oracle: a reference model of the hand-expanded program in which the macro's own locals are renamed apart (they live
-//   in a scope of their own; hygienic references see only that scope; the caller's code and its variables are untouched
-//   unless an `unhygienic` reference names a variable only the caller has). The model's verdict is cross-checked against
-//   Elk itself running the hand-expanded, renamed program, and (bodies without `unhygienic`) against the printed
-//   expansion `do macro … end`. Situations the property statement leaves open are counted, not judged.
+//
+//	in a scope of their own; hygienic references see only that scope; the caller's code and its variables are untouched
+//	unless an `unhygienic` reference names a variable only the caller has). The model's verdict is cross-checked against
+//	Elk itself running the hand-expanded, renamed program, and (bodies without `unhygienic`) against the printed
+//	expansion `do macro … end`. Situations the property statement leaves open are counted, not judged.
 package main
 
 import (
@@ -713,9 +716,9 @@ func main() {
 		Rule: "every macro with a quoted body of 1..2 (thorough: 1..3) statements over {n := K, n = n + 100, println(n), println(!{x})}, n ∈ {a, b}, every reference hygienic or wrapped in unhygienic (12 statement forms) " +
 			"× caller defines none/a/b/both before the call and prints them after it × argument {a, a + b, 7} (bodies with !{x}) × call site {top-level block, method} × probe reading a macro-defined name after the call; each program run alone under a unique macro name. " +
 			"Oracle: reference model of the hand-expanded program with the macro's locals renamed apart; validated by running the hand-expanded renamed program and the printed expansion `do macro … end` through Elk. A program is non-trivial when the model decides it; programs the statement leaves open are counted",
-		Assume: []string{"caller code (the macro argument) always means the caller's variables; inside `unhygienic` a name the caller defines is the caller's", "what a macro-authored unhygienic reference means when the macro has a local of that name is not stated: counted, not judged", "a hygienically spliced argument that names a macro local is not stated: counted"},
-		Setup:  func(c *engine.Ctx) { elkrun.Init() },
-		Run:    run,
+		Assume:      []string{"caller code (the macro argument) always means the caller's variables; inside `unhygienic` a name the caller defines is the caller's", "what a macro-authored unhygienic reference means when the macro has a local of that name is not stated: counted, not judged", "a hygienically spliced argument that names a macro local is not stated: counted"},
+		Setup:       func(c *engine.Ctx) { elkrun.Init() },
+		Run:         run,
 		CaseTimeout: 300 * time.Second,
 	})
 }
